@@ -101,21 +101,28 @@ func bracesSeqRec(word *syntax.Word, yield func(*syntax.Word) bool) bool {
 				width = max(len(fromLit), len(toLit))
 			}
 			upward := from <= to
-			incr := int64(1)
+			// Work with unsigned magnitudes, so that neither the absolute
+			// value of the step nor stepping past the end can overflow.
+			incr := uint64(1)
 			if len(br.Elems) > 2 {
 				// ParseInt with bit size 64 to ensure consistent behavior on 32-bit platforms.
 				n, _ := strconv.ParseInt(br.Elems[2].Lit(), 10, 64)
 				if n < 0 {
-					n = -n // only the absolute value of the step matters
-				}
-				if n != 0 {
-					incr = n
+					incr = -uint64(n) // only the absolute value of the step matters
+				} else if n > 0 {
+					incr = uint64(n)
 				}
 			}
+			span := uint64(to) - uint64(from)
 			if !upward {
-				incr = -incr
+				span = uint64(from) - uint64(to)
 			}
-			for n := from; (upward && n <= to) || (!upward && n >= to); n += incr {
+			steps := span / incr
+			for i := uint64(0); ; i++ {
+				n := int64(uint64(from) + i*incr)
+				if !upward {
+					n = int64(uint64(from) - i*incr)
+				}
 				next := *word
 				lit := &syntax.Lit{}
 				switch {
@@ -129,6 +136,9 @@ func bracesSeqRec(word *syntax.Word, yield func(*syntax.Word) bool) bool {
 				next.Parts = append([]syntax.WordPart{lit}, rest...)
 				if !expand(&next) {
 					return false
+				}
+				if i == steps {
+					break
 				}
 			}
 			return true
